@@ -81,6 +81,10 @@ TBlocks == /\ Ev.op = "Blocks"
                      ELSE IF Ev.simple # AIsSimple(Ev.p) THEN Flag("SimpleByDefinition")
                      ELSE IF Ev.ssimple # AIsStronglySimple(Ev.p) THEN Flag("StronglySimpleByDefinition")
                      ELSE bad
+\* the two simplicity predicates alone, for many permutations chosen where the predicates are likely to hold
+TSimple == /\ Ev.op = "Simple"
+           /\ bad' = IF Ev.simple # AIsSimple(Ev.p) THEN Flag("SimpleByDefinition")
+                     ELSE IF Ev.ssimple # AIsStronglySimple(Ev.p) THEN Flag("StronglySimpleByDefinition") ELSE bad
 TMono == /\ Ev.op = "Mono"
          /\ Judge("MonotoneBlocksAreMaximalRuns", Ev.res = AMonoBlocks(Ev.p, Ev.kind, IF Ev.form = "noargs" THEN FALSE ELSE Ev.ones))
 TContract == /\ Ev.op = "Contract"
@@ -115,6 +119,6 @@ TLaw == /\ Ev.op = "Law"
 
 TNext == /\ l <= Len(Trace) /\ l' = l + 1
          /\ (TSum \/ TCompose \/ TInflate \/ TInsert \/ TRemove \/ TRemoveElement \/ TShift \/ TDecomp \/ TBlocks
-             \/ TMono \/ TContract \/ TShadow \/ TCovers \/ TLaw)
+             \/ TSimple \/ TMono \/ TContract \/ TShadow \/ TCovers \/ TLaw)
 TraceDone == l = Len(Trace) + 1 => PrintT(ToJson([verdict |-> bad, drift |-> <<>>, n |-> Len(Trace)]))
 =============================================================================
